@@ -38,11 +38,14 @@ ROOTS = [
     r"noise::NoiseSocket<S> as futures::AsyncRead>::poll_read$", r"noise::NoiseContext::read_handshake_message",
     r"noise::NoiseContext::get_remote_peer_id", r"noise::parse_and_verify_peer_id", r"webrtc::substream::Substream as tokio::io::AsyncRead>::poll_read$",
     r"crypto::RemotePublicKey::from_protobuf_encoding", r"^peer_id::PeerId::from_",
+    # conversion of an accepted (possibly remote-chosen) peer id into the multiaddr crate's PeerId: applied to every peer a Kademlia
+    # response or identify message names (Protocol::P2p(peer.into()) in add_known_peer / AddressRecord::new / add_known_address)
+    r"^peer_id::<impl std::convert::From<peer_id::PeerId> for multiaddr::PeerId>::from$",
     r"kademlia::message::KademliaMessage::from_bytes", r"kademlia::message::record_from_schema",
     r"kademlia::types::KademliaPeer as std::convert::TryFrom", r"identify::Identify::on_outbound_substream",
     r"bitswap::Bitswap::on_message_received", r"bitswap::Prefix::from_bytes", r"bitswap::block_to_response",
 ]
-ROOT_FLOOR = 18   # root patterns that must resolve in the default configuration (get_remote_peer_id is webrtc-only)
+ROOT_FLOOR = 19   # root patterns that must resolve in the default configuration (get_remote_peer_id is webrtc-only)
 
 
 def closure(fx):
@@ -463,6 +466,12 @@ def run(ctx):
         r19_2b(ctx, fx, seen)
         r19_3(ctx, fx, seen)
         r19_4(ctx, fx)
+        if cfg == "default":
+            # the `expect` in From<PeerId> for multiaddr::PeerId is discharged by "every PeerId value is one the reference accepts":
+            # the constructor / threshold / constant-agreement rules of C18 are part of this property's argument and evaluated here too
+            import C18
+            C18.r18_1(ctx, fx)
+            C18.r18_2(ctx, fx)
     ctx.assume("prost / unsigned-varint / multihash / multiaddr / cid / snow / bytes decoders return errors instead of panicking")
     ctx.assume("in-memory sizes are < 2^63, so usize additions of lengths and offsets cannot overflow")
     ctx.assume("quick: feature configuration `default`; thorough adds `--all-features` (webrtc substream / noise reply decoders)")
